@@ -99,6 +99,10 @@ func c16len(name string, p, max int) int {
 		return vChoose(name, n+1)
 	}
 	cand := []int{0, 1, 2, 7, 8, 9, 16, 17, 31, 32, 33, 34, 64, 65}
+	if vParam("SPARSE") == 2 {
+		// few, large lengths: shrink/grow thresholds of slice-backed representations
+		cand = []int{0, 1, 63, 64, 65, 127, 128, 129, 192, 255, 256, 257, 300}
+	}
 	var ok []int
 	for _, c := range cand {
 		if max < 0 || c <= max {
